@@ -511,6 +511,18 @@ class Checker:
         pend = self.pending.pop(nid, None)
         want = self._want.pop(nid, None)
         self.solved[nid] = Unk('inference-cycle')
+        # the bounds of the type variables in scope at the node (a deferred node may be solved after
+        # the walk has left its class / function)
+        outer_bounds = self.tv_bounds
+        if pend is not None:
+            self.tv_bounds = pend[4]
+        try:
+            return self._solve_node(node, env, contextless, nid, pend, want)
+        finally:
+            self.tv_bounds = outer_bounds
+
+    def _solve_node(self, node, env, contextless, nid, pend, want):
+        ast = self.ast
         try:
             if isinstance(node, ast.New):
                 ct = self.t(node.class_type)
@@ -1097,7 +1109,7 @@ class Checker:
             self.ok('CONCRETE')
             if self.infer and ct[2] and getattr(e.class_type, 'can_infer_type_args', False):
                 if id(e) not in self.solved:
-                    self.pending[id(e)] = (e, env, c, {})
+                    self.pending[id(e)] = (e, env, c, {}, dict(self.tv_bounds))
                 self._keep.append(e)
                 return
             m = dict(zip([str(p.name) for p in c.type_parameters], ct[2]))
@@ -1157,7 +1169,7 @@ class Checker:
                         self.skip('INFER', 'approximate')
                         return
                     if id(e) not in self.solved:
-                        self.pending[id(e)] = (e, env, d, mm)
+                        self.pending[id(e)] = (e, env, d, mm, dict(self.tv_bounds))
                     self._keep.append(e)
                     return
                 if d.type_parameters:
